@@ -22,7 +22,21 @@
 (*                           parameters instead of the wallet's              *)
 (*   DupAddrImport           ImportAccount accepts an address that is        *)
 (*                           already in the wallet (second list entry)       *)
-(* Properties (C38): Persist, Opens, FailNoChange (save faults).             *)
+(* Client threads.  ClientImpl is one object used by several goroutines      *)
+(* (cli, sigsvr, rpc).  Every public call is a sequence of LOCK SEGMENTS      *)
+(* (critical sections of ClientImpl.lock): a check segment (look the account  *)
+(* up, guards, password check) and an act segment (mutate, save, re-index).   *)
+(* Where the code holds the lock from the check to the end of the act, the    *)
+(* pair is ONE action.  For the operations named in Split the lock is         *)
+(* released between the two: the check segment stores its decision and the    *)
+(* object it found in pend[t], any step of another thread may be scheduled    *)
+(* at that lock-release point, and the act segment then runs on the CURRENT   *)
+(* state with the stored decision.  Code as found: Split = {"Import"}         *)
+(* (ImportAccount looks the label up under the read lock,                     *)
+(* addAccountData re-checks label and address under the write lock); with a   *)
+(* single thread the split is unobservable and Split = {} is used.            *)
+(* Properties (C38): Persist, Opens, FailNoChange (save faults),              *)
+(* DefaultListed, AuthCurrent (interleavings of two client threads).          *)
 (***************************************************************************)
 EXTENDS Naturals, Sequences, FiniteSets, TLC
 
@@ -35,12 +49,19 @@ CONSTANTS ImportIds,   \* set of account ids (naturals) importable from outside
           WScrypt,     \* the wallet's scrypt parameter set: "low" or "def"
           MaxObj,      \* bound on live AccountData objects
           MaxOps, Acts,
-          NewIgnoresWalletScrypt, DupAddrImport
+          NewIgnoresWalletScrypt, DupAddrImport,
+          Threads,     \* client threads (goroutines calling into the one ClientImpl), naturals >= 1
+          Split,       \* names of the operations whose check segment and act segment are separate
+                       \* critical sections (the lock is released in between)
+          OneShot      \* TRUE: every thread makes one call, and thread t's call is the t-th to start (threads are
+                       \* interchangeable, so this loses no interleaving of |Threads| concurrent calls)
 
-VARIABLES accts, objs, addrIdx, labelIdx, dfltPtr, file, nnew, fault, nops, act
+\* pend[t]: the call thread t has in flight between its check segment and its act segment
+\* who: the thread that took the last step (0 = the environment); history variable like act
+VARIABLES accts, objs, addrIdx, labelIdx, dfltPtr, file, nnew, fault, pend, nops, act, who
 
-vars == <<accts, objs, addrIdx, labelIdx, dfltPtr, file, nnew, fault, nops, act>>
-view == <<accts, objs, addrIdx, labelIdx, dfltPtr, file, nnew, fault>>
+vars == <<accts, objs, addrIdx, labelIdx, dfltPtr, file, nnew, fault, pend, nops, act, who>>
+view == <<accts, objs, addrIdx, labelIdx, dfltPtr, file, nnew, fault, pend>>
 
 NewIds == {NewIdSeq[i] : i \in 1..Len(NewIdSeq)}
 AllIds == ImportIds \cup NewIds
@@ -56,10 +77,15 @@ LastOr0(S) == IF S = {} THEN 0 ELSE Last(S)
 FileOf(ac, ob) == [i \in 1..Len(ac) |-> ob[ac[i]]]
 Referenced(ac, ai, li, dp) == ({ac[i] : i \in 1..Len(ac)} \cup {ai[x] : x \in AllIds}
                                \cup {li[l] : l \in AllLabels} \cup {dp}) \ {0}
-FreeOids == Oids \ Referenced(accts, addrIdx, labelIdx, dfltPtr)
+Idle == [pc |-> "idle", call |-> [name |-> "-"], o |-> 0, l2 |-> ""]
+Quiet == \A t \in Threads : pend[t].pc = "idle"
+\* objects held by the in-flight calls (of the threads other than t)
+Caps == {pend[t].o : t \in Threads} \ {0}
+Keep(t) == {pend[u].o : u \in Threads \ {t}} \ {0}
+FreeOids == Oids \ (Referenced(accts, addrIdx, labelIdx, dfltPtr) \cup Caps)
 Fresh == CHOOSE o \in FreeOids : \A p \in FreeOids : o <= p
 \* objects that are no longer referenced are forgotten (garbage)
-Gc(ob, ac, ai, li, dp) == [o \in Oids |-> IF o \in Referenced(ac, ai, li, dp) THEN ob[o] ELSE Null]
+Gc(ob, ac, ai, li, dp, keep) == [o \in Oids |-> IF o \in Referenced(ac, ai, li, dp) \cup keep THEN ob[o] ELSE Null]
 
 \* keypair.DecryptWithCustomScrypt(obj, pwd, walletData.Scrypt) succeeds
 Decrypts(o, p) == objs[o].pwd = p /\ objs[o].enc = WScrypt
@@ -86,18 +112,47 @@ FileView == ViewOf(LoadAccts(file), LoadObjs(file), LoadAddr(file), LoadLabel(fi
 Init == /\ accts = <<>> /\ objs = [o \in Oids |-> Null]
         /\ addrIdx = [x \in AllIds |-> 0] /\ labelIdx = [l \in AllLabels |-> 0]
         /\ dfltPtr = 0 /\ file = <<>> /\ nnew = 0 /\ fault = FALSE /\ nops = 0
-        /\ act = [name |-> "Init"]
+        /\ pend = [t \in Threads |-> Idle]
+        /\ act = [name |-> "Init"] /\ who = 0
 
-Step(a) == nops < MaxOps /\ a.name \in Acts /\ nops' = nops + 1 /\ act' = a /\ fault' = fault
+\* start from a prepared wallet: S = a set of (reachable, saved) states [accts, objs, addrIdx, labelIdx, dfltPtr, nnew, fault]
+InitFrom(S) == \E s \in S :
+        /\ accts = s.accts /\ objs = s.objs /\ addrIdx = s.addrIdx /\ labelIdx = s.labelIdx
+        /\ dfltPtr = s.dfltPtr /\ file = FileOf(s.accts, s.objs) /\ nnew = s.nnew /\ fault = s.fault /\ nops = 0
+        /\ pend = [t \in Threads |-> Idle]
+        /\ act = [name |-> "Init"] /\ who = 0
+
+\* a step of call a.  A call counts (nops) when its first segment runs; the act segment of a split call (ph = "act")
+\* continues a call that has been counted
+Step(a) == LET cont == "ph" \in DOMAIN a /\ a.ph = "act"
+           IN /\ cont \/ nops < MaxOps
+              /\ a.name \in Acts /\ nops' = (IF cont THEN nops ELSE nops + 1) /\ act' = a /\ fault' = fault
 \* save() fails while fault holds (the wallet file cannot be written): the operation reports an error and rolls
 \* its in-memory changes back, so nothing changes -- neither what the client shows nor the file
 SaveFails(a) == Step(a @@ [res |-> "err"]) /\ UNCHANGED <<accts, objs, addrIdx, labelIdx, dfltPtr, file>>
 Refuse == UNCHANGED <<accts, objs, addrIdx, labelIdx, dfltPtr, file, nnew>>
 Save == file' = FileOf(accts', objs')
 
-\* addAccountData(accData) -- shared by NewAccount and ImportAccount; rec.dflt is FALSE on entry
+\* the decision of a check segment: v = "go" (the act segment follows; o = the *AccountData found, l2 = the label chosen)
+\* or the final answer of the call
+Final(v) == [v |-> v, o |-> 0, l2 |-> ""]
+Go(o, l2) == [v |-> "go", o |-> o, l2 |-> l2]
+
+\* thread t makes call a: d is the decision of its check segment (evaluated on the current state), ActOp its act
+\* segment.  One critical section unless a.name \in Split.
+Starts(t) == pend[t].pc = "idle" /\ (OneShot => nops = t - 1)
+Call(t, a, d, ActOp) ==
+    /\ Starts(t) /\ who' = t
+    /\ IF d.v # "go" THEN Step(a @@ [res |-> d.v]) /\ Refuse /\ UNCHANGED pend
+       ELSE IF a.name \in Split
+       THEN /\ Step(a @@ [ph |-> "chk", res |-> "pending"]) /\ Refuse
+            /\ pend' = [pend EXCEPT ![t] = [pc |-> "checked", call |-> a, o |-> d.o, l2 |-> d.l2]]
+       ELSE ActOp /\ UNCHANGED pend
+
+\* ---------------------------------------------------------------- addAccountData
+\* addAccountData(accData) -- the act segment of NewAccount and ImportAccount (write lock); rec.dflt is FALSE on entry
 AddAccountData(rec, a) ==
-    IF rec.scheme \notin Schemes \/ (rec.label # "" /\ labelIdx[rec.label] # 0)
+    IF rec.scheme \notin Schemes \/ (addrIdx[rec.id] # 0 /\ ~DupAddrImport) \/ (rec.label # "" /\ labelIdx[rec.label] # 0)
     THEN Step(a @@ [res |-> "err"]) /\ UNCHANGED <<accts, objs, addrIdx, labelIdx, dfltPtr, file>>
     ELSE IF fault THEN SaveFails(a)
     ELSE LET o == Fresh
@@ -110,96 +165,137 @@ AddAccountData(rec, a) ==
             /\ labelIdx' = IF r.label # "" THEN [labelIdx EXCEPT ![r.label] = o] ELSE labelIdx
             /\ Save
 
-\* NewAccount(label, scheme, pwd): generates the next fresh key
-New(l, s, p) ==
+\* NewAccount(label, scheme, pwd): generates the next fresh key (outside the lock), then addAccountData
+New(t, l, s, p) ==
     /\ nnew < Len(NewIdSeq) /\ FreeOids # {}
     /\ LET x == NewIdSeq[nnew + 1]
            rec == [id |-> x, label |-> l, dflt |-> FALSE, scheme |-> s, pwd |-> p,
                    enc |-> IF NewIgnoresWalletScrypt THEN "def" ELSE WScrypt]
            a == [name |-> "New", id |-> x, label |-> l, scheme |-> s, pwd |-> p]
-       IN /\ AddAccountData(rec, a)
+       IN /\ Starts(t) /\ who' = t /\ UNCHANGED pend
+          /\ AddAccountData(rec, a)
           \* the key pair is consumed only if the account was added
           /\ nnew' = IF accts' # accts THEN nnew + 1 ELSE nnew
 
-\* ImportAccount(meta): account x, encrypted outside with password p under the wallet's parameters
-Import(x, l, p) ==
+\* ImportAccount(meta): account x, encrypted outside with password p under the wallet's parameters.
+\* check segment (read lock, GetAccountMetadataByLabel): a taken label is renamed; act segment: addAccountData, which
+\* re-checks address and label
+ImportAct(x, l2, p, a) ==
+    /\ FreeOids # {}
+    /\ AddAccountData([id |-> x, label |-> l2, dflt |-> FALSE, scheme |-> CHOOSE s \in Schemes : TRUE,
+                       pwd |-> p, enc |-> WScrypt], a)
+    /\ UNCHANGED nnew
+Import(t, x, l, p) ==
     /\ x \in ImportIds /\ FreeOids # {}
     /\ LET l2 == IF l # "" /\ labelIdx[l] # 0 THEN Rename(l) ELSE l
-           rec == [id |-> x, label |-> l2, dflt |-> FALSE, scheme |-> CHOOSE s \in Schemes : TRUE,
-                   pwd |-> p, enc |-> WScrypt]
            a == [name |-> "Import", id |-> x, label |-> l, pwd |-> p]
        IN /\ l2 \in AllLabels
-          /\ IF addrIdx[x] # 0 /\ ~DupAddrImport
-             THEN Step(a @@ [res |-> "err"]) /\ Refuse     \* design: an address is listed once
-             ELSE AddAccountData(rec, a) /\ UNCHANGED nnew
+          /\ Call(t, a, Go(0, l2), ImportAct(x, l2, p, a))
 
-\* DeleteAccount(address, pwd)
-Delete(x, p) ==
+\* ---------------------------------------------------------------- DeleteAccount(address, pwd)
+DeleteChk(x, p) ==
+    LET o == addrIdx[x]
+    IN IF o = 0 THEN Final("none")
+       ELSE IF objs[o].dflt \/ ~Decrypts(o, p) THEN Final("err") ELSE Go(o, "")
+\* walletData.DelAccount(address) (first list entry of that address, if any), save, drop the index entries
+DeleteAct(t, x, o, a) ==
+    IF fault THEN SaveFails(a) /\ UNCHANGED nnew
+    ELSE LET is == {j \in 1..Len(accts) : objs[accts[j]].id = x}
+             ac == IF is = {} THEN accts ELSE RemoveAt(accts, CHOOSE j \in is : \A k \in is : j <= k)
+             ai == [addrIdx EXCEPT ![x] = 0]
+             li == IF objs[o].label # "" THEN [labelIdx EXCEPT ![objs[o].label] = 0] ELSE labelIdx
+         IN /\ Step(a @@ [res |-> "ok"])
+            /\ accts' = ac /\ addrIdx' = ai /\ labelIdx' = li
+            /\ objs' = Gc(objs, ac, ai, li, dfltPtr, Keep(t))
+            /\ file' = FileOf(ac, objs)
+            /\ UNCHANGED <<dfltPtr, nnew>>
+Delete(t, x, p) ==
     LET a == [name |-> "Delete", id |-> x, pwd |-> p]
-        o == addrIdx[x]
-    IN IF o = 0 THEN Step(a @@ [res |-> "none"]) /\ Refuse
-       ELSE IF objs[o].dflt \/ ~Decrypts(o, p) THEN Step(a @@ [res |-> "err"]) /\ Refuse
-       ELSE IF fault THEN SaveFails(a) /\ UNCHANGED nnew
-       ELSE LET i == CHOOSE j \in 1..Len(accts) : objs[accts[j]].id = x
-                                                  /\ \A k \in 1..(j - 1) : objs[accts[k]].id # x
-                ac == RemoveAt(accts, i)
-                ai == [addrIdx EXCEPT ![x] = 0]
-                li == IF objs[o].label # "" THEN [labelIdx EXCEPT ![objs[o].label] = 0] ELSE labelIdx
-            IN /\ Step(a @@ [res |-> "ok"])
-               /\ accts' = ac /\ addrIdx' = ai /\ labelIdx' = li
-               /\ objs' = Gc(objs, ac, ai, li, dfltPtr)
-               /\ file' = FileOf(ac, objs)
-               /\ UNCHANGED <<dfltPtr, nnew>>
+        d == DeleteChk(x, p)
+    IN Call(t, a, d, DeleteAct(t, x, d.o, a))
 
-\* SetDefaultAccount(address)
-SetDefault(x) ==
+\* ---------------------------------------------------------------- SetDefaultAccount(address)
+SetDefaultChk(x) ==
+    IF dfltPtr # 0 /\ objs[dfltPtr].id = x THEN Final("ok")
+    ELSE IF addrIdx[x] = 0 THEN Final("err") ELSE Go(addrIdx[x], "")
+SetDefaultAct(o, a) ==
+    IF fault THEN SaveFails(a) /\ UNCHANGED nnew
+    ELSE /\ Step(a @@ [res |-> "ok"])
+         /\ objs' = [q \in Oids |-> IF q = o THEN [objs[q] EXCEPT !.dflt = TRUE]
+                                    ELSE IF q = dfltPtr THEN [objs[q] EXCEPT !.dflt = FALSE]
+                                    ELSE objs[q]]
+         /\ dfltPtr' = o
+         /\ UNCHANGED <<accts, addrIdx, labelIdx, nnew>> /\ Save
+SetDefault(t, x) ==
     LET a == [name |-> "SetDefault", id |-> x]
-        o == addrIdx[x]
-    IN IF dfltPtr # 0 /\ objs[dfltPtr].id = x THEN Step(a @@ [res |-> "ok"]) /\ Refuse
-       ELSE IF o = 0 THEN Step(a @@ [res |-> "err"]) /\ Refuse
-       ELSE IF fault THEN SaveFails(a) /\ UNCHANGED nnew
-       ELSE /\ Step(a @@ [res |-> "ok"])
-            /\ objs' = [q \in Oids |-> IF q = o THEN [objs[q] EXCEPT !.dflt = TRUE]
-                                       ELSE IF q = dfltPtr THEN [objs[q] EXCEPT !.dflt = FALSE]
-                                       ELSE objs[q]]
-            /\ dfltPtr' = o
-            /\ UNCHANGED <<accts, addrIdx, labelIdx, nnew>> /\ Save
+        d == SetDefaultChk(x)
+    IN Call(t, a, d, SetDefaultAct(d.o, a))
 
-\* SetLabel(address, label)
-SetLabel(x, l) ==
+\* ---------------------------------------------------------------- SetLabel(address, label)
+SetLabelChk(x, l) ==
+    LET o == addrIdx[x]
+    IN IF labelIdx[l] # 0 \/ o = 0 THEN Final("err")
+       ELSE IF objs[o].label = l THEN Final("ok") ELSE Go(o, "")
+SetLabelAct(o, l, a) ==
+    IF fault THEN SaveFails(a) /\ UNCHANGED nnew
+    ELSE /\ Step(a @@ [res |-> "ok"])
+         /\ objs' = [objs EXCEPT ![o].label = l]
+         /\ labelIdx' = [labelIdx EXCEPT ![objs[o].label] = 0, ![l] = o]
+         /\ UNCHANGED <<accts, addrIdx, dfltPtr, nnew>> /\ Save
+SetLabel(t, x, l) ==
     LET a == [name |-> "SetLabel", id |-> x, label |-> l]
-        o == addrIdx[x]
-    IN IF labelIdx[l] # 0 \/ o = 0 THEN Step(a @@ [res |-> "err"]) /\ Refuse
-       ELSE IF objs[o].label = l THEN Step(a @@ [res |-> "ok"]) /\ Refuse
-       ELSE IF fault THEN SaveFails(a) /\ UNCHANGED nnew
-       ELSE /\ Step(a @@ [res |-> "ok"])
-            /\ objs' = [objs EXCEPT ![o].label = l]
-            /\ labelIdx' = [labelIdx EXCEPT ![objs[o].label] = 0, ![l] = o]
-            /\ UNCHANGED <<accts, addrIdx, dfltPtr, nnew>> /\ Save
+        d == SetLabelChk(x, l)
+    IN Call(t, a, d, SetLabelAct(d.o, l, a))
 
-\* ChangePassword(address, old, new)
-ChangePassword(x, p, q) ==
+\* ---------------------------------------------------------------- ChangePassword(address, old, new)
+ChangePasswordChk(x, p, q) ==
+    LET o == addrIdx[x]
+    IN IF p = q THEN Final("ok")
+       ELSE IF o = 0 \/ ~Decrypts(o, p) THEN Final("err") ELSE Go(o, "")
+ChangePasswordAct(o, q, a) ==
+    IF fault THEN SaveFails(a) /\ UNCHANGED nnew
+    ELSE /\ Step(a @@ [res |-> "ok"])
+         /\ objs' = [objs EXCEPT ![o].pwd = q, ![o].enc = WScrypt]
+         /\ UNCHANGED <<accts, addrIdx, labelIdx, dfltPtr, nnew>> /\ Save
+ChangePassword(t, x, p, q) ==
     LET a == [name |-> "ChangePassword", id |-> x, old |-> p, new |-> q]
-        o == addrIdx[x]
-    IN IF p = q THEN Step(a @@ [res |-> "ok"]) /\ Refuse
-       ELSE IF o = 0 \/ ~Decrypts(o, p) THEN Step(a @@ [res |-> "err"]) /\ Refuse
-       ELSE IF fault THEN SaveFails(a) /\ UNCHANGED nnew
-       ELSE /\ Step(a @@ [res |-> "ok"])
-            /\ objs' = [objs EXCEPT ![o].pwd = q, ![o].enc = WScrypt]
-            /\ UNCHANGED <<accts, addrIdx, labelIdx, dfltPtr, nnew>> /\ Save
+        d == ChangePasswordChk(x, p, q)
+    IN Call(t, a, d, ChangePasswordAct(d.o, q, a))
 
-\* ChangeSigScheme(address, scheme)
-ChangeScheme(x, s) ==
+\* ---------------------------------------------------------------- ChangeSigScheme(address, scheme)
+ChangeSchemeChk(x, s) == IF addrIdx[x] = 0 \/ s \notin Schemes THEN Final("err") ELSE Go(addrIdx[x], "")
+ChangeSchemeAct(o, s, a) ==
+    IF fault THEN SaveFails(a) /\ UNCHANGED nnew
+    ELSE /\ Step(a @@ [res |-> "ok"])
+         /\ objs' = [objs EXCEPT ![o].scheme = s]
+         /\ UNCHANGED <<accts, addrIdx, labelIdx, dfltPtr, nnew>> /\ Save
+ChangeScheme(t, x, s) ==
     LET a == [name |-> "ChangeScheme", id |-> x, scheme |-> s]
-        o == addrIdx[x]
-    IN IF o = 0 \/ s \notin Schemes THEN Step(a @@ [res |-> "err"]) /\ Refuse
-       ELSE IF fault THEN SaveFails(a) /\ UNCHANGED nnew
-       ELSE /\ Step(a @@ [res |-> "ok"])
-            /\ objs' = [objs EXCEPT ![o].scheme = s]
-            /\ UNCHANGED <<accts, addrIdx, labelIdx, dfltPtr, nnew>> /\ Save
+        d == ChangeSchemeChk(x, s)
+    IN Call(t, a, d, ChangeSchemeAct(d.o, s, a))
+
+\* ---------------------------------------------------------------- GetAccountByAddress(address, pwd) (read lock)
+Open(t, x, p) ==
+    LET o == addrIdx[x]
+        a == [name |-> "Open", id |-> x, pwd |-> p]
+    IN Call(t, a, Final(IF o = 0 THEN "none" ELSE IF Decrypts(o, p) THEN "ok" ELSE "err"), FALSE)
+
+\* the act segment of the call thread t has in flight: on the current state, with the decision stored by its check
+Resume(t) ==
+    /\ pend[t].pc = "checked" /\ who' = t /\ pend' = [pend EXCEPT ![t] = Idle]
+    /\ LET c == pend[t].call
+           a == c @@ [ph |-> "act"]
+           o == pend[t].o
+       IN CASE c.name = "Import" -> ImportAct(c.id, pend[t].l2, c.pwd, a)
+            [] c.name = "Delete" -> DeleteAct(t, c.id, o, a)
+            [] c.name = "SetDefault" -> SetDefaultAct(o, a)
+            [] c.name = "SetLabel" -> SetLabelAct(o, c.label, a)
+            [] c.name = "ChangePassword" -> ChangePasswordAct(o, c.new, a)
+            [] c.name = "ChangeScheme" -> ChangeSchemeAct(o, c.scheme, a)
 
 \* the process ends and the wallet is opened again: NewClientImpl(path)
 Reload ==
+    /\ Quiet
     /\ Step([name |-> "Reload", res |-> "ok"])
     /\ accts' = LoadAccts(file) /\ objs' = LoadObjs(file) /\ addrIdx' = LoadAddr(file)
     /\ labelIdx' = LoadLabel(file) /\ dfltPtr' = LoadDflt(file)
@@ -211,15 +307,20 @@ SetFault == /\ ~fault /\ nops < MaxOps /\ "SetFault" \in Acts /\ nops' = nops + 
 ClearFault == /\ fault /\ nops < MaxOps /\ "ClearFault" \in Acts /\ nops' = nops + 1 /\ fault' = FALSE
               /\ act' = [name |-> "ClearFault", res |-> "ok"] /\ Refuse
 
-Next == \/ SetFault \/ ClearFault
-        \/ \E l \in ArgLabels, s \in Schemes \cup {BadScheme}, p \in Pwds : New(l, s, p)
-        \/ \E x \in ImportIds, l \in ArgLabels, p \in Pwds : Import(x, l, p)
-        \/ \E x \in AllIds, p \in Pwds : Delete(x, p)
-        \/ \E x \in AllIds : SetDefault(x)
-        \/ \E x \in AllIds, l \in ArgLabels : SetLabel(x, l)
-        \/ \E x \in AllIds, p \in Pwds, q \in Pwds : ChangePassword(x, p, q)
-        \/ \E x \in AllIds, s \in Schemes \cup {BadScheme} : ChangeScheme(x, s)
-        \/ Reload
+Env == (SetFault \/ ClearFault \/ Reload) /\ who' = 0 /\ UNCHANGED pend
+
+ThreadStep(t) ==
+        \/ \E l \in ArgLabels, s \in Schemes \cup {BadScheme}, p \in Pwds : New(t, l, s, p)
+        \/ \E x \in ImportIds, l \in ArgLabels, p \in Pwds : Import(t, x, l, p)
+        \/ \E x \in AllIds, p \in Pwds : Delete(t, x, p)
+        \/ \E x \in AllIds : SetDefault(t, x)
+        \/ \E x \in AllIds, l \in ArgLabels : SetLabel(t, x, l)
+        \/ \E x \in AllIds, p \in Pwds, q \in Pwds : ChangePassword(t, x, p, q)
+        \/ \E x \in AllIds, s \in Schemes \cup {BadScheme} : ChangeScheme(t, x, s)
+        \/ \E x \in AllIds, p \in Pwds : Open(t, x, p)
+        \/ Resume(t)
+
+Next == Env \/ \E t \in Threads : ThreadStep(t)
 
 Spec == Init /\ [][Next]_vars
 
@@ -240,7 +341,21 @@ Opens == \A x \in AllIds : addrIdx[x] # 0 => MemView.opens[x] = {objs[addrIdx[x]
 OneDefault == /\ Cardinality({i \in 1..Len(accts) : objs[accts[i]].dflt}) <= 1
               /\ (Len(accts) > 0 => dfltPtr # 0 /\ objs[dfltPtr].dflt)
 
+\* C38 under concurrent client threads: what the client serves is what it lists -- the default account and every
+\* indexed account is an entry of the account list (a deleted account is never served or opened), and a non-empty
+\* wallet file names a default account
+Listed(o) == \E i \in 1..Len(accts) : accts[i] = o
+DefaultListed == Quiet => /\ dfltPtr # 0 => Listed(dfltPtr)
+                          /\ \A x \in AllIds : addrIdx[x] # 0 => Listed(addrIdx[x])
+                          /\ Len(file) > 0 => \E i \in 1..Len(file) : file[i].dflt
+\* C38 under concurrent client threads: a call that is authorised by a password succeeds only if that password is
+\* the account's current password when the call takes effect (the step that answers "ok")
+AuthCurrent == [][(/\ act'.name \in {"Delete", "ChangePassword", "Open"} /\ act'.res = "ok"
+                   /\ (act'.name = "ChangePassword" => act'.old # act'.new))
+                  => /\ addrIdx[act'.id] # 0
+                     /\ Decrypts(addrIdx[act'.id], IF act'.name = "ChangePassword" THEN act'.old ELSE act'.pwd)]_vars
+
 \* exported state: every VIEW variable except file, which is FileOf(accts, objs) by invariant Saved
 State == [accts |-> accts, objs |-> objs, addrIdx |-> addrIdx, labelIdx |-> labelIdx, dfltPtr |-> dfltPtr,
-          nnew |-> nnew, fault |-> fault]
+          nnew |-> nnew, fault |-> fault, pend |-> pend]
 =============================================================================
